@@ -1,33 +1,41 @@
 import WM.Lemmas.CollectTop
+import WM.Lemmas.CollectUnlimited
+import WM.Lemmas.CollectKeeps
 /-!
 C05 — limiting a search to the top N never changes which hits win or their scores.
 
 `collectTop` is `Searcher.search_with_collector(q, TopCollector(limit, usequality, replace=…))`
 followed by `results()`, over any number of segments, with the three optimisations of
 `ScoredCollector.matches` (periodic `replace(minscore)`, `skip_to_quality(minscore)` on block change,
-heap admission) driven by an **arbitrary schedule** `sched` of drop wishes that the model honours only
-within the C12 contract (a dropped posting scores `≤` the threshold the collector passed).
+heap admission) driven by an **arbitrary schedule** `sched` of wishes — drop this pending posting, or
+*lower its score* — that the model honours only within the C12 contract (`WM.Matcher.Keeps`: only a
+posting scoring `≤` the threshold the collector passed may be dropped or lowered, a score is never
+raised, and a threshold of 0 — "no threshold" — changes nothing). `contract_covered` proves that
+these schedules produce every outcome `Keeps` allows. The exhaustive ranking is taken at the scores
+the postings had when the search started (`Fresh`: the ghost field `orig` equals `score` on input).
 -/
 namespace WM.C05
 open WM.Rank WM.Collect
 
 /-- **C05.topk.** For every configuration (`limit ≥ 1`, any `replace` period, quality on/off,
     `final()` hook or not), every segment layout with globally ascending document numbers, every
-    schedule of drops and every assignment of "entered a new block" flags: the limited search
-    returns exactly the first `limit` entries of the exhaustive ranking (score descending, document
-    ascending on ties) — provided every posting scores `> 0`. The guard is real (`minscore` starts
-    at 0, so a posting scoring `≤ 0` may legally be dropped before the heap is full), see
-    `positivity_guard_needed` below. -/
+    schedule of drops and score-lowerings and every assignment of "entered a new block" flags: the
+    limited search returns exactly the first `limit` entries of the exhaustive ranking (score
+    descending, document ascending on ties) — with their exhaustive scores: a posting whose score
+    the matcher lowered never gets onto the heap. `hfresh` says that the input postings carry their
+    own score as the original score. No assumption on the scores: zero and negative scores are covered. (Round 1
+    needed the guard `0 < score`, because the collector called `skip_to_quality(0)` while the heap
+    was not full; that call was a defect — zero-scoring documents were skipped — and is repaired by
+    `fix: ScoredCollector.matches does not call skip_to_quality() while there is no minimum score`.) -/
 theorem topk (cfg : Cfg) (final : Nat → Rat → Rat) (segs : List Seg) (sched : List Step)
     (hk : 1 ≤ cfg.limit)
-    (hwf : (globalDocs segs).Pairwise (· < ·))
-    (hpos : ∀ s ∈ segs, ∀ p ∈ s.postings, 0 < p.score) :
+    (hwf : (globalDocs segs).Pairwise (· < ·)) (hfresh : Fresh segs) :
     collectTop cfg final segs sched = .ok (topK cfg.limit (allHits cfg final segs)) := by
   have hfc : FilterCollects cfg final (fun st : TopState => st) (topConsume cfg final) (fun _ => true) :=
     ⟨fun c off p t' _ h => ⟨t', h, rfl⟩, fun c off p h => by simp at h⟩
   obtain ⟨st', sched', tr', losers', hrun, hinv', hperm'⟩ :=
     runSegs_gen cfg final (fun st : TopState => st) (topConsume cfg final) (fun _ => true) hfc hk
-      segs sched {} {} [] (inv_init _ _) (Or.inl rfl) hpos hwf
+      segs sched {} {} [] (inv_init _ _) (Or.inl rfl) hwf hfresh
   unfold collectTop
   simp only [hrun]
   congr 1
@@ -40,6 +48,41 @@ theorem topk (cfg : Cfg) (final : Nat → Rat → Rat) (segs : List Seg) (sched 
     exact List.filter_eq_self.mpr (fun _ _ => rfl)
   rw [hall] at hperm'
   simpa using hperm'
+
+theorem allHits_cfg (cfg cfg' : Cfg) (final : Nat → Rat → Rat) (segs : List Seg) (h : cfg.useFinal = cfg'.useFinal) :
+    allHits cfg final segs = allHits cfg' final segs := by
+  have : toHit cfg final = toHit cfg' final := by
+    funext off p; simp only [toHit, h]
+  simp only [allHits, this]
+
+/-- **C05.unlimited.** The exhaustive side of the property: `search(q, limit=None)` — the same
+    generator with `_use_block_quality() = False` and `minscore` constantly 0 feeding an
+    `UnlimitedCollector` — returns, for every schedule, exactly the ranking of all hits (reversed
+    as a whole with `reverse=True`). -/
+theorem unlimited (replace : Nat) (useFinal : Bool) (final : Nat → Rat → Rat) (reverse : Bool)
+    (segs : List Seg) (sched : List Step) :
+    collectUnlimited replace useFinal final reverse segs sched =
+      .ok (if reverse then
+             (rankAll (allHits { limit := 0, replace := replace, usequality := false, useFinal := useFinal } final segs)).reverse
+           else rankAll (allHits { limit := 0, replace := replace, usequality := false, useFinal := useFinal } final segs)) := by
+  obtain ⟨sched', tr', h⟩ := runSegs_unl
+    { limit := 0, replace := replace, usequality := false, useFinal := useFinal } final rfl segs sched [] {}
+  unfold collectUnlimited
+  simp only [h, List.nil_append]
+  rfl
+
+/-- **C05.limited_eq_prefix_of_unlimited** — the property as it is worded: for every `limit ≥ 1`
+    the limited search (any schedule of drops within the contract) returns the first `limit` hits of
+    what the exhaustive search (any schedule) returns. -/
+theorem limited_eq_prefix_of_unlimited (cfg : Cfg) (final : Nat → Rat → Rat) (segs : List Seg)
+    (sched sched' : List Step) (hk : 1 ≤ cfg.limit) (hwf : (globalDocs segs).Pairwise (· < ·))
+    (hfresh : Fresh segs) :
+    ∃ all, collectUnlimited cfg.replace cfg.useFinal final false segs sched' = .ok all ∧
+      collectTop cfg final segs sched = .ok (all.take cfg.limit) := by
+  refine ⟨_, unlimited cfg.replace cfg.useFinal final false segs sched', ?_⟩
+  rw [topk cfg final segs sched hk hwf hfresh]
+  simp only [Bool.false_eq_true, if_false, topK]
+  rw [allHits_cfg cfg { limit := 0, replace := cfg.replace, usequality := false, useFinal := cfg.useFinal } final segs rfl]
 
 /-- The filter of a `Wrap` as a predicate on global document numbers
     (`FilterCollector`: allowed and not restricted). -/
@@ -54,7 +97,7 @@ def passes (w : Wrap) (g : Nat) : Bool := !refuses w.allow w.restrict g
     order facet evicts a higher-scoring document of its key. -/
 def with_wrappers_full : Prop :=
   ∀ (cfg : Cfg) (final : Nat → Rat → Rat) (w : Wrap) (segs : List Seg) (sched : List Step),
-    1 ≤ cfg.limit → (globalDocs segs).Pairwise (· < ·) → (∀ s ∈ segs, ∀ p ∈ s.postings, 0 < p.score) →
+    1 ≤ cfg.limit → (globalDocs segs).Pairwise (· < ·) → Fresh segs →
     (∀ ck cl o, w.collapse = some (ck, cl, o) → 1 ≤ cl) →
     ∃ hs st tr, collectStack cfg final w segs sched = .ok (hs, st, tr) ∧
       ∃ hsAll stAll trAll,
@@ -64,13 +107,11 @@ def with_wrappers_full : Prop :=
 /-- **C05.with_wrappers (filter, mask, terms).** Under a `FilterCollector` with any allow and
     restrict sets (query, `Results` or id set — they reach the collector as id sets) wrapped around
     the `TopCollector`, for every schedule of drops the limited search returns the first `limit`
-    entries of the ranking of the hits that pass the filter, and `filtered_count` plus the number
-    of documents seen by the `TopCollector` never exceeds the number of hits. -/
+    entries of the ranking of the hits that pass the filter. -/
 theorem with_wrappers_partial (cfg : Cfg) (final : Nat → Rat → Rat) (allow restrict : Option (List Nat))
     (segs : List Seg) (sched : List Step)
     (hk : 1 ≤ cfg.limit)
-    (hwf : (globalDocs segs).Pairwise (· < ·))
-    (hpos : ∀ s ∈ segs, ∀ p ∈ s.postings, 0 < p.score) :
+    (hwf : (globalDocs segs).Pairwise (· < ·)) (hfresh : Fresh segs) :
     ∃ st tr, collectStack cfg final { allow := allow, restrict := restrict } segs sched
         = .ok (topK cfg.limit ((allHits cfg final segs).filter
             (fun h => passes { allow := allow, restrict := restrict } h.doc)), st, tr) := by
@@ -91,7 +132,7 @@ theorem with_wrappers_partial (cfg : Cfg) (final : Nat → Rat → Rat) (allow r
       simp
   obtain ⟨st', sched', tr', losers', hrun, hinv', hperm'⟩ :=
     runSegs_gen cfg final (fun st : StackSt => st.top) (stackConsume cfg final w) (passes w) hfc hk
-      segs sched {} {} [] (inv_init _ _) (Or.inl rfl) hpos hwf
+      segs sched {} {} [] (inv_init _ _) (Or.inl rfl) hwf hfresh
   refine ⟨st', tr', ?_⟩
   have hrun' : runSegs cfg (stackConsume cfg final { allow := allow, restrict := restrict })
       (fun st => st.top.minscore) segs sched {} {} = .ok (st', sched', tr') := hrun
@@ -113,16 +154,16 @@ theorem with_wrappers_partial (cfg : Cfg) (final : Nat → Rat → Rat) (allow r
 /-- Non-vacuity of `with_wrappers_partial`: a filter that really refuses (doc 1 not allowed, doc 12
     masked) on two segments with a dropping schedule. -/
 example :
-    let segs : List Seg := [⟨0, true, [⟨0, 1, true⟩, ⟨1, 3, false⟩, ⟨2, 2, true⟩]⟩, ⟨10, true, [⟨0, 5, true⟩, ⟨2, 1, true⟩]⟩]
+    let segs : List Seg := [⟨0, true, [(.mk' 0 1 true), (.mk' 1 3 false), (.mk' 2 2 true)]⟩, ⟨10, true, [(.mk' 0 5 true), (.mk' 2 1 true)]⟩]
     let w : Wrap := { allow := some [0, 2, 10, 12], restrict := some [12] }
-    (globalDocs segs).Pairwise (· < ·) ∧ (∀ s ∈ segs, ∀ p ∈ s.postings, 0 < p.score) ∧
+    (globalDocs segs).Pairwise (· < ·) ∧
       ((allHits { limit := 2 } (fun _ s => s) segs).filter (fun h => passes w h.doc)).map (·.doc) = [0, 2, 10] := by
   decide
 
 private def ckeyX : Nat → Option Int :=
   fun g => if g = 0 then some 1 else if g = 1 then some 2 else if g = 2 then some 3 else if g = 3 then some 2 else none
 private def ordX : Nat → Key := fun g => if g = 0 then [5] else if g = 1 then [9] else if g = 2 then [5] else [1]
-private def segsX : List Seg := [⟨0, true, [⟨0, 5, true⟩, ⟨1, 4, true⟩, ⟨2, 3, true⟩, ⟨3, 1, true⟩]⟩]
+private def segsX : List Seg := [⟨0, true, [(.mk' 0 5 true), (.mk' 1 4 true), (.mk' 2 3 true), (.mk' 3 1 true)]⟩]
 private def wX : Wrap := { collapse := some (ckeyX, 1, some ordX) }
 
 local macro "step_loop" : tactic => `(tactic| (rw [matchesLoop]; simp +decide [replacePhase, skipPhase,
@@ -165,42 +206,61 @@ theorem collapse_order_counterexample : ¬ with_wrappers_full := by
   simp at h3
 
 /-- The hypotheses of `topk` are satisfiable on a non-trivial instance: two segments, block flags,
-    ties, a schedule that really drops (`replace` mask and `skip` count), `limit = 2 <` number of hits. -/
+    ties, a zero and a negative score, `limit = 2 <` number of hits. -/
 example :
-    let segs : List Seg := [⟨0, true, [⟨0, 1, true⟩, ⟨1, 3, false⟩, ⟨2, 2, true⟩, ⟨3, 2, false⟩]⟩,
-                            ⟨10, true, [⟨0, 5, true⟩, ⟨2, 1, true⟩]⟩]
+    let segs : List Seg := [⟨0, true, [(.mk' 0 1 true), (.mk' 1 3 false), (.mk' 2 0 true), (.mk' 3 2 false)]⟩,
+                            ⟨10, true, [(.mk' 0 5 true), (.mk' 2 (-1) true)]⟩]
     (1 ≤ ({ limit := 2, replace := 1 } : Cfg).limit) ∧ (globalDocs segs).Pairwise (· < ·) ∧
-      (∀ s ∈ segs, ∀ p ∈ s.postings, 0 < p.score) ∧ (allHits { limit := 2 } (fun _ s => s) segs).length = 6 := by
+      (allHits { limit := 2 } (fun _ s => s) segs).length = 6 := by
   decide
 
-/-- The guard `0 < score` of `topk` cannot be removed: with a posting scoring 0 a legal schedule
-    (drop it under the initial threshold `minscore = 0`, before the heap is full) makes the limited
-    search lose a document that the exhaustive ranking has. (On the real code this is what
-    zero-boost clauses do; the E2E stream of the check runs that region on the implementation.) -/
-theorem positivity_guard_needed :
-    ∃ (cfg : Cfg) (segs : List Seg) (sched : List Step),
-      1 ≤ cfg.limit ∧ (globalDocs segs).Pairwise (· < ·) ∧
-      collectTop cfg (fun _ s => s) segs sched ≠ .ok (topK cfg.limit (allHits cfg (fun _ s => s) segs)) := by
-  refine ⟨{ limit := 2, replace := 1 }, [⟨0, true, [⟨0, 0, true⟩, ⟨1, 1, true⟩]⟩],
-    [⟨[true], true, 1⟩], by decide, by decide, ?_⟩
-  have h1 : collectTop { limit := 2, replace := 1 } (fun _ s => s)
-      [⟨0, true, [⟨0, 0, true⟩, ⟨1, 1, true⟩]⟩] [⟨[true], true, 1⟩] = .ok [⟨1, 1⟩] := by
-    simp only [collectTop, runSegs]
+/-- A zero-scoring posting survives a schedule that wants to drop it while there is no threshold
+    (the instance that refuted the unguarded statement in round 1). -/
+example : collectTop { limit := 2, replace := 1 } (fun _ s => s)
+    [⟨0, true, [(.mk' 0 0 true), (.mk' 1 1 true)]⟩] [{ mask := [.drop], supports := true, skip := 1 }] = .ok [⟨1, 1⟩, ⟨0, 0⟩] := by
+  simp only [collectTop, runSegs]
+  rw [matchesLoop]
+  simp +decide [replacePhase, replaceThreshold, skipPhase, dropMasked, skipDrop, useBlockQuality, Step.none, nextFlag,
+    topConsume, toHit, TopState.collect, heapPush, heapLe]
+  rw [matchesLoop]
+  simp +decide [replacePhase, replaceThreshold, skipPhase, dropMasked, skipDrop, useBlockQuality, Step.none, nextFlag,
+    topConsume, toHit, TopState.collect, heapPush, heapLe]
+  rw [matchesLoop]
+  simp +decide [TopState.results]
+
+/-- A run in which the optimisations really fire, evaluated through `runSegs`: `limit = 1`,
+    `replace = 1`, scores 3, 5, 1, 2, 4, 7. After document 1 (score 5) replaced document 0 on the heap
+    the threshold is 5: `skip_to_quality(5)` skips document 2 (`skipped = 1`) and leaves document 3
+    with its score *lowered* from 2 to 1 (a union that moved one sub-matcher past it), the next
+    `replace(5)` drops document 4; documents 3 and 5 reach `_collect` (`total = 4` of 6 matches).
+    The result is document 5 (score 7), the top 1 of the exhaustive ranking, as `topk` says. -/
+example :
+    let cfg : Cfg := { limit := 1, replace := 1 }
+    let segs : List Seg := [⟨0, true, [.mk' 0 3 true, .mk' 1 5 true, .mk' 2 1 true, .mk' 3 2 false, .mk' 4 4 true, .mk' 5 7 true]⟩]
+    let sched : List Step := [Step.none, Step.none,
+      { mask := [], supports := true, skip := 1, skipMask := [.lower 1, .keep, .drop] },
+      { mask := [.drop], supports := true, skip := 0 }]
+    ∃ st sched' tr, runSegs cfg (topConsume cfg (fun _ s => s)) (fun st => st.minscore) segs sched {} {}
+        = .ok (st, sched', tr) ∧
+      st.results = [⟨5, 7⟩] ∧ st.total = 4 ∧ tr.skipped = 1 ∧ tr.replaced = 4 ∧ tr.mayHaveDropped = true := by
+  intro cfg segs sched
+  simp only [cfg, segs, sched, runSegs]
+  iterate 5
     rw [matchesLoop]
-    simp +decide [replacePhase, skipPhase, dropMasked, skipDrop, useBlockQuality, Step.none, nextFlag,
-      topConsume, toHit, TopState.collect, heapPush]
-    rw [matchesLoop]
-    simp +decide [TopState.results]
-  have h2 : topK 2 (allHits { limit := 2, replace := 1 } (fun _ s => s)
-      [⟨0, true, [⟨0, 0, true⟩, ⟨1, 1, true⟩]⟩]) = [⟨1, 1⟩, ⟨0, 0⟩] := by
-    apply topK_of_split 2 _ _ []
-    · simp only [allHits, toHit, List.flatMap_cons, List.flatMap_nil, List.map_cons, List.map_nil,
-        List.append_nil]
-      exact List.Perm.swap _ _ _
-    · simp +decide
-    · simp
-    · intro l hl; simp at hl
-  rw [h1, h2]
-  simp
+    simp +decide [replacePhase, replaceThreshold, skipPhase, dropMasked, skipDrop, useBlockQuality, Step.none,
+      nextFlag, topConsume, toHit, TopState.collect, heapPush, heapLe, Posting.mk']
+  refine ⟨_, _, _, ⟨rfl, rfl, rfl⟩, ?_⟩
+  decide
+
+/-- **C05.contract_covered.** The schedules `topk` quantifies over cover the C12 contract: whatever
+    `replace(q)` / `skip_to_quality(q)` (`q ≠ 0`) may turn the remaining result list of the matcher
+    into under `WM.Matcher.Keeps` — entries above `q` untouched, entries at or below `q` dropped,
+    kept, or kept with a lower score — is the outcome of some list of wishes of a `Step`. (`q = 0`
+    is "no threshold": every `replace()` of whoosh tests `if minquality and …`, and the collector
+    no longer calls `skip_to_quality(0)`.) -/
+theorem contract_covered (q : Rat) (hq : q ≠ 0) (m : List Posting) (L' : WM.Matcher.Den)
+    (hasc : WM.Matcher.Asc (denOf m)) (hasc' : WM.Matcher.Asc L') (hk : WM.Matcher.Keeps q L' (denOf m)) :
+    ∃ mask : List Wish, denOf (dropMasked q mask m) = L' :=
+  keeps_is_wishes q hq m L' hasc hasc' hk
 
 end WM.C05
